@@ -80,6 +80,14 @@ def fault_oracle(h, i, line, impl, orc):
     return "fault injection: " + orc
 
 
+def conc_oracle(h, i, line, impl, orc):
+    """C06: reads of committed versions at every yield point equal the reads before the operation;
+    the export pin holds"""
+    if orc is None or orc.endswith(" ok") or orc == "ok":
+        return None
+    return "schedule: " + orc
+
+
 PROPS = {
     "C01": dict(kind="v1hist", quick_n=1500, thorough_n=4000,
                 profile=Profile(p_hash_read=0.0, check_all_versions=0.5, iters=0.3, big=0.05),
@@ -155,6 +163,8 @@ PROPS = {
                 title="v2 persistence"),
     "C16": dict(kind="v1hist", quick_n=150, thorough_n=1500, gen="legacy", mode="legacy", profile=None,
                 title="legacy-format databases stay usable"),
+    "C06": dict(kind="v1hist", quick_n=1000, thorough_n=6000, mode="conc", gen="conc", oracle=conc_oracle, profile=None, stress=True,
+                title="concurrent readers"),
     "C14": dict(kind="v1hist", quick_n=1500, thorough_n=4000,
                 profile=Profile(meta_per_version=(2, 5), p_load_old=0.25, p_prune=0.3, p_reopen=0.25,
                                 check_all_versions=0.2, p_noop_version=0.35),
@@ -223,6 +233,11 @@ def sig_legacy_converted_root_clash(lines, d):
     return "K24" in (d.get("hazards") or [])
 
 
+def sig_pin_toctou(lines, d):
+    # K9t: the reader check of deleteVersionsTo is check-then-act
+    return d["kind"] == "oracle" and d["line"].startswith("pinprune") and d["line"].endswith("prune:checked") and "TOCTOU" in (d.get("why") or "")
+
+
 def sig_empty_value_proof(lines, d):
     # K6: ics23 rejects an empty value: the proof (or a neighbour leaf of a non-membership proof) carries value `x`
     return d["kind"] == "oracle" and (" x " in (d["impl"] or "") and "proof" in d["line"])
@@ -230,6 +245,7 @@ def sig_empty_value_proof(lines, d):
 
 SIGNATURES = {
     "empty-value-proof": sig_empty_value_proof,
+    "pin-toctou": sig_pin_toctou,
     "legacy-converted-root-clash": sig_legacy_converted_root_clash,
     "v2-recommit-sharded": sig_v2_recommit_sharded,
     "multibatch-commit-cut": sig_multibatch_commit_cut,
@@ -300,7 +316,8 @@ def run_check(prop, tier, seed, n_override=None):
     broken = None
     try:
         try:
-            proof = C.prepare(prop, v2=(cfg.get("mode") == "v2"), legacy=(cfg.get("mode") == "legacy"))
+            proof = C.prepare(prop, v2=(cfg.get("mode") == "v2"), legacy=(cfg.get("mode") == "legacy"),
+                              race=bool(cfg.get("stress")))
         except C.BuildBroken as e:
             broken = {"what": e.what, "detail": e.detail}
             C.log("BUILD BROKEN:", e.what, "\n", e.detail)
@@ -311,7 +328,9 @@ def run_check(prop, tier, seed, n_override=None):
                 return 1
         proof_broken = broken is not None or proof["obligations"] != proof["discharged"] or bool(proof["grep_gate"])
         n = n_override or (cfg["thorough_n"] if (tier == "thorough" or proof_broken) else cfg["quick_n"])
-        if cfg.get("gen") == "legacy":
+        if cfg.get("gen") == "conc":
+            hists = corpus(prop) + v1gen.gen_conc(seed, n)
+        elif cfg.get("gen") == "legacy":
             hists = corpus(prop) + v1gen.gen_legacy(seed, n)
         elif cfg.get("gen") in ("v2", "v2p"):
             hists = corpus(prop) + v1gen.gen_v2(seed, n, persist=(cfg["gen"] == "v2p"))
@@ -393,6 +412,19 @@ def run_check(prop, tier, seed, n_override=None):
                 "original_history_id": h["id"], "harness_mode": hmode,
                 "replay_cmd": "bin/check %s --replay <this file>" % prop})
             print("VIOLATION property=%s replay=%s" % (prop, path))
+        stress_runs = []
+        if cfg.get("stress"):
+            k, dur = (6, 1500) if tier != "thorough" else (48, 3000)
+            stress_runs = C.run_stress([seed * 1000 + i for i in range(k)], dur, jobs=4)
+            for sr in stress_runs:
+                if not sr["ok"]:
+                    nviol += 1
+                    path = C.write_replay(prop, seed, nviol, {
+                        "property": prop, "kind": "race" if sr["races"] else "stress-mismatch", "stress_seed": sr["seed"],
+                        "cfg": sr["cfg"], "result": sr["result"], "mismatches": sr["mismatches"], "race_report": sr["race_report"],
+                        "replay_cmd": "harness/v1/bin/h1race stress %d %d" % (sr["seed"], dur)})
+                    print("VIOLATION property=%s replay=%s" % (prop, path))
+                    break
         if not violations and proof_broken:
             nviol += 1
             path = C.write_replay(prop, seed, nviol, {
@@ -418,6 +450,7 @@ def run_check(prop, tier, seed, n_override=None):
                 "histories": len(hists), "operations_by_kind": op_histogram(hists),
                 "samples": samples + ([{"theorem": thm}] if thm else []),
                 "known_findings_seen": sorted(reported),
+                "stress_runs": [{k: v for k, v in sr.items() if k != "race_report"} for sr in stress_runs],
             },
             "assumptions": C.TRUSTED_BASE,
             "wall_s": round(time.time() - t0, 1),
